@@ -41,10 +41,16 @@ func checkC06(c *an.Ctx) {
 // decides how its commands are run — Commands, Before, After, Condition, AllowFailure, Variations,
 // Timeout, Context, Interactive — is written. The scheduler and the watcher run a copy of the task
 // that may differ in env, variables and dir only.
-func taskPolicyUntouched(c *an.Ctx, rule string) {
+func taskPolicyUntouched(c *an.Ctx, rule string, only ...string) {
 	p := c.P
 	policy := map[string]bool{"Commands": true, "Before": true, "After": true, "Condition": true, "AllowFailure": true,
 		"Variations": true, "Timeout": true, "Context": true, "Interactive": true, "ExportAs": true, "Name": true}
+	if len(only) > 0 {
+		policy = map[string]bool{}
+		for _, f := range only {
+			policy[f] = true
+		}
+	}
 	n := 0
 	for _, fn := range p.Funcs {
 		if !an.InModule(fn) || inPkgs("pkg/task", "internal/config")(fn) {
@@ -72,7 +78,7 @@ func taskPolicyUntouched(c *an.Ctx, rule string) {
 		})
 	}
 	if n == 0 {
-		c.OK(rule, "module:task-policy", token.NoPos, "no function outside pkg/task and internal/config writes a policy field of a task it did not build")
+		c.OK(rule, "module:task-policy", token.NoPos, "no function outside pkg/task and internal/config writes a policy field of a task it did not build %v", only)
 	}
 }
 
@@ -120,7 +126,7 @@ func compileNesting(c *an.Ctx, r *runnerRoles, rule string) {
 	outerOK := false
 	for _, v := range an.ResolveAll(outer.RangeOperand()) {
 		if call, ok := v.(*ssa.Call); ok {
-			if cc, ok := an.IsCallTo(call, "(*pkg/task.Task).GetVariations"); ok && task != nil && an.SameValue(cc.Args[0], task) {
+			if cc, ok := an.IsCallTo(call, "(pkg/task.Task).GetVariations"); ok && task != nil && an.SameValue(cc.Args[0], task) {
 				outerOK = true
 			}
 		}
